@@ -201,5 +201,6 @@ Lemma voluntary_first_literal_partial c bits clear tls outs choices pre post f s
   forall g, In (false, g) (q_advall q) -> cand (q_negd q) st (false, g) = true -> ~ In (false, g) (q_cache q).
 Proof.
   intros E q Hr Hf g _ Hc Hin.
-  rewrite (at_neg_voluntary_first c bits clear tls outs choices _ _ _ _ _ E Hr Hf g Hin) in Hc. discriminate.
+  pose proof (at_neg_voluntary_first c bits clear tls outs choices _ _ _ _ _ E Hr Hf g Hin) as X.
+  unfold q in Hc. congruence.
 Qed.
